@@ -88,3 +88,27 @@ var atomMu sync.Mutex
 
 // Atomically runs f under a global mutex.
 func Atomically(f func()) { atomMu.Lock(); defer atomMu.Unlock(); f() }
+
+// Locker is a mutex whose ownership oracles can inspect (free-running version: ownership is
+// tracked per goroutine through a token the caller does not see, so HeldByMe is approximate).
+type Locker struct {
+	m        sync.Mutex
+	held     bool
+	Unlocks  int
+	OnUnlock func()
+}
+
+func (l *Locker) Lock() { l.m.Lock(); l.held = true }
+
+func (l *Locker) Unlock() {
+	l.held = false
+	l.m.Unlock()
+	atomMu.Lock()
+	l.Unlocks++
+	atomMu.Unlock()
+	if l.OnUnlock != nil {
+		l.OnUnlock()
+	}
+}
+
+func (l *Locker) HeldByMe() bool { return l.held }
